@@ -1,9 +1,11 @@
 import Chess.Model.Text
 import Chess.Model.Search
+import Chess.Model.SearchF
 import Chess.Model.Uci
 import Chess.Spec.Rules
 import Chess.Spec.Fen
 import Chess.Lemmas.AlphaBeta
+import Chess.Lemmas.AlphaBetaClamp
 
 /-!
 # Line-protocol driver (`chessdrv`): the model side of the correspondence check and the
@@ -148,9 +150,9 @@ def runOp (ctx : Ctx) (line : String) : Ctx × List String :=
       let st : Search.St Move :=
         { tt := ctx.table, killers := Array.replicate Gen.killerLen none,
           history := Array.replicate Gen.historyLen 0, polls := 0, ttOff := clear ≠ 0 }
-      match Search.rootSearch Uci.chessOps runs g depth.toNat st with
-      | none => (ctx, [s!"stopped polls={stopAfter + 1}"])
-      | some ((m, score, only), st) =>
+      match Search.rootSearchF Uci.chessOps runs g depth.toNat st with
+      | (st, none) => ({ ctx with table := st.tt }, [s!"stopped polls={stopAfter + 1}"])
+      | (st, some (m, score, only)) =>
         ({ ctx with table := st.tt },
          [s!"best={match m with | some m => S m.uci | none => "none"} score={score} only={if only then 1 else 0} polls={st.polls} tt={st.tt.size}"])
     | _ => (ctx, ["badargs"])
@@ -159,7 +161,7 @@ def runOp (ctx : Ctx) (line : String) : Ctx × List String :=
     | [maxd, stopAfter, clear] =>
       let stopAfter := stopAfter.toInt?.getD (-1)
       let runs : Nat → Bool := fun i => stopAfter < 0 || (i : Int) < stopAfter
-      let out := Search.driver Uci.chessOps runs g ctx.table (clear != "0")
+      let out := Search.driverF Uci.chessOps runs g ctx.table (clear != "0")
         (maxd.toNat?.bind (fun n => if n < 256 then some n else none))
       let polls : Int := if out.stopped then stopAfter + 1 else out.st.polls
       ({ ctx with table := out.st.tt },
@@ -171,7 +173,8 @@ def runOp (ctx : Ctx) (line : String) : Ctx × List String :=
     | [some depth] =>
       let o := Uci.chessOps
       let live := Search.rootInRangeB o depth g
-      (ctx, [s!"ref={Search.refRoot o depth g} live={if live then 1 else 0} moves={(o.checked g).length}"])
+      let liveK := live || Search.rootInRangeKB 9000 o depth g
+      (ctx, [s!"ref={Search.refRoot o depth g} live={if live then 1 else 0} moves={(o.checked g).length} liveK={if liveK then 1 else 0}"])
     | _ => (ctx, ["badargs"])
   | "budget" =>
     -- budget <wtime|-> <btime|-> <winc|-> <binc|-> <movetime|-> <infinite 0|1> <w|b> <share>
